@@ -38,11 +38,7 @@ template <typename T, typename D> struct SelectCallback<T, false, D> { using Typ
 template <typename T, typename ...Args>
 struct HasFunctionGetEvent
 {
-	// remove_reference: a getEvent that returns a reference to the event must be detected too.
-	// A pointer to a reference type is ill-formed, so without it such a policy was silently ignored.
-	template <typename C> static std::true_type test(
-		typename std::remove_reference<decltype(C::getEvent(std::declval<Args>()...))>::type *
-	);
+	template <typename C> static std::true_type test(decltype(C::getEvent(std::declval<Args>()...)) *);
 	template <typename C> static std::false_type test(...);
 	
 	enum { value = !! decltype(test<T>(0))() };
